@@ -93,15 +93,27 @@ class PyUnpickler(pickle._Unpickler):
 
 
 ARG = "payload-text"
+NESTED = [7, 1, {"k": 0, "j": [0, 1]}]
+
+
+def same_typed(a, b):
+    """equality that also compares the types (1 is not True, 0 is not False, 1 is not 1.0), through lists / tuples / dicts"""
+    if type(a) is not type(b):
+        return False
+    if isinstance(a, (list, tuple)):
+        return len(a) == len(b) and all(same_typed(x, y) for x, y in zip(a, b))
+    if isinstance(a, dict):
+        return len(a) == len(b) and all(same_typed(x, y) for x, y in zip(a.keys(), b.keys())) and all(same_typed(a[k], b[k]) for k in a)
+    return a == b
 MODES = []
 for run_first in (True, False):
     for replace in (False, True):
         MODES.append((f"insert_python(run_first={run_first}, replace={replace})",
-                      lambda p, rf=run_first, rp=replace: p.insert_python(ARG, 3, module="verif_c08", attr="injected", run_first=rf, use_output_as_unpickle_result=rp),
-                      ("keeps" if not replace else "replaces"), (ARG, 3)))
+                      lambda p, rf=run_first, rp=replace: p.insert_python(ARG, 3, 0, 1, NESTED, module="verif_c08", attr="injected", run_first=rf, use_output_as_unpickle_result=rp),
+                      ("keeps" if not replace else "replaces"), (ARG, 3, 0, 1, NESTED)))
 for pop in (False, True):
-    MODES.append((f"append_python(pop_result={pop})", lambda p, pr=pop: p.append_python(ARG, module="verif_c08", attr="injected", pop_result=pr),
-                  "keeps" if pop else "on-top", (ARG,)))
+    MODES.append((f"append_python(pop_result={pop})", lambda p, pr=pop: p.append_python(ARG, 1, 0, module="verif_c08", attr="injected", pop_result=pr),
+                  "keeps" if pop else "on-top", (ARG, 1, 0)))
 MODES.append(("insert_magic_int(4242)", lambda p: p.insert_magic_int(4242), "keeps-no-call", None))
 MODES.append(("insert_magic_int(4242, index=0)", lambda p: p.insert_magic_int(4242, 0), "keeps-no-call", None))
 FN_DEF = "def probe_fn(obj):\n    import verif_c08\n    return verif_c08.fn_on_obj(obj)\n"
@@ -155,7 +167,7 @@ for bname, base, obj in BASES:
             elif len(inj) != 1:
                 fails.append(dict(case, loader=lname, what=f"the injected call ran {len(inj)} times"))
                 continue
-            elif args is not None and promise != "applied" and tuple(inj[0][1]) != tuple(args):
+            elif args is not None and promise != "applied" and not same_typed(tuple(inj[0][1]), tuple(args)):
                 fails.append(dict(case, loader=lname, what=f"the injected call got {inj[0][1]!r}, expected {args!r}"[:200]))
             if eff != base_effects:
                 fails.append(dict(case, loader=lname, what=f"the base pickle's effects were {base_effects} and are now {eff}"[:200]))
